@@ -65,6 +65,10 @@ def run(tier, replay=None):
             for i, lay, _f in layouts:
                 if i % 3 == 1:
                     lay[i % len(lay)]['rinit'] = True
+                    if i % 2 == 0:
+                        lay[0]['slash'] = True        # the roots are handed to the project with a trailing slash
+                if i % 7 == 5:
+                    lay[0]['shadow'] = True           # the first root has a package named like a loaded standard-library package
                 if i % 4 == 2:
                     for spec_ in lay:
                         spec_['ext'] = True       # packages named vqa get a compiled-extension child (and files no import can name)
